@@ -435,6 +435,7 @@ func (b Builder) MakeMap(t Type, nReserve Expr) (ret Expr) {
 		nReserve = b.Prog.Val(0)
 	}
 	typ := b.abiType(t.raw.Type)
+	nReserve = b.FitIntSize(nReserve)
 	ret = b.InlineCall(b.Pkg.rtFunc("MakeMap"), typ, nReserve)
 	ret.Type = t
 	return
@@ -605,6 +606,7 @@ func (b Builder) MakeChan(t Type, size Expr) (ret Expr) {
 	dbgInstrf("MakeChan %v, %v\n", t.RawType(), size.impl)
 	prog := b.Prog
 	eltSize := prog.IntVal(prog.SizeOf(prog.Elem(t)), prog.Int())
+	size = b.FitIntSize(size)
 	ret.Type = t
 	ret.impl = b.InlineCall(b.Pkg.rtFunc("NewChan"), eltSize, size).impl
 	return
